@@ -405,7 +405,9 @@ def id_conformance(n, tier, seed=0):
         return json.load(open(cp))
     workdir = os.path.join(OUT, 'work', 'l2_id%d.%d' % (n, os.getpid()))
     os.makedirs(workdir, exist_ok=True)
-    progs = checks.id_programs(n, tier)
+    # (programs in which a client keeps a heartbeat locked beyond its owner's exit, or that end stuck by design, say nothing about
+    # the order of the two exit steps)
+    progs = [p for p in checks.id_programs(n, tier) if not any(x in p.split()[1] for x in ('pin_reuse', 'lockedhb', '_over'))]
     ptext = {p.split()[1]: p for p in progs}
     files = vlib.run_harness(bdir, 'threadh', [], progs, workdir, mode='dfs', pb=2, max_exec=1500 if tier == 'quick' else 20000,
                              seed=seed, tag='idconf')
